@@ -25,6 +25,11 @@ inductive Val where
   | undef
   deriving Inhabited
 
+def Val.kindName : Val → String
+  | .int _ => "int" | .bool _ => "bool" | .str _ => "str" | .nil => "nil" | .ptr .. => "ptr"
+  | .slice .. => "slice" | .agg _ => "agg" | .iface .. => "iface" | .closure .. => "closure"
+  | .iter _ => "iter" | .deferstack _ => "deferstack" | .undef => "undef"
+
 /-- dynamic type id used for run-time errors (never a real tid) -/
 def rtErrTid : Nat := 1000000000
 
@@ -363,7 +368,7 @@ def execBinOp (p : Prog) (op : BinOp) (resTy : Nat) (xTy yTy : Nat) (x y : Val) 
       | some r => pure (.bool (if op == .eql then r else !r))
       | none => match x, y with
         | .iface .., .iface .. => rtPanic "uncomparable"
-        | _, _ => unsupported "comparison of these values"
+        | _, _ => unsupported s!"comparison of {x.kindName} with {y.kindName}"
     | _ => unsupported "binop on these values"
 
 def execUnOp (p : Prog) (op : UnOp) (resTy : Nat) (x : Val) : M Val :=
@@ -632,7 +637,7 @@ def execSimple (p : Prog) (f : Fn) (fr : Frame) (ins : Instr) : M (Frame × Opti
               | some (_, _, b) => pure (if b then some x else none)
               | none => unsupported "typeswitch: no impl record"
             | _ => pure (if d == c then some v else none)
-          | _, _ => unsupported "typeswitch: operand"
+          | _, _ => unsupported s!"typeswitch: operand {x.kindName}"
         match hit with
         | some v =>
           found := some idx
